@@ -1589,6 +1589,9 @@ dt_dadd_d(struct dt_d_s d, int n)
 		/* can't use short-cut return here, it'd upset the IPO/LTO */
 		goto out;
 	}
+	/* a 31st (5th monday, week 53, day 366) left behind by month or year
+	 * arithmetic is the last one there is, count from that */
+	d = dt_dfixup(d);
 	switch (d.typ) {
 	case DT_JDN:
 		d.daisy = __jdn_to_daisy(d.jdn);
@@ -1661,6 +1664,9 @@ dt_dadd_b(struct dt_d_s d, int n)
 		/* cacn't use short-cut return here, it'd upset the IPO/LTO */
 		goto out;
 	}
+	/* a 31st (5th monday, week 53, day 366) left behind by month or year
+	 * arithmetic is the last one there is, count from that */
+	d = dt_dfixup(d);
 	switch (d.typ) {
 	case DT_JDN:
 		d.daisy = __jdn_to_daisy(d.jdn);
@@ -1733,6 +1739,9 @@ dt_dadd_w(struct dt_d_s d, int n)
 		/* cacn't use short-cut return here, it'd upset the IPO/LTO */
 		goto out;
 	}
+	/* a 31st (5th monday, week 53, day 366) left behind by month or year
+	 * arithmetic is the last one there is, count from that */
+	d = dt_dfixup(d);
 	switch (d.typ) {
 	case DT_JDN:
 		d.daisy = __jdn_to_daisy(d.jdn);
